@@ -250,8 +250,11 @@ def exec_for_generic(P, st, seq, spec):
             pass
         except BreakSig:
             pass
-    except PyExc:
+    except PyExc as pe:
         info["raised"] = True
+        if not spec.get("may_abort"):
+            # an exception escaping one iteration ends the loop: later elements would be skipped, so per-element effects cannot be claimed
+            P.prove(f"loop@{tag}.an_iteration_never_aborts_the_loop", False, exc=P.resolve_cls(pe.obj))
         raise
     for (o, name) in P.ghost.get("writes", [])[nwrites:]:
         local = o.ident is not None and z3.is_int_value(o.ident) and o.ident.as_long() < -alloc_mark
